@@ -4,7 +4,7 @@
     sequences of a net at the level of marking tuples) in proof/C20_Bfs.v. *)
 From Coq Require Import ZArith NArith List Lia Permutation.
 Import ListNotations.
-From SK Require Import model.C20_Model proof.C20_Spec proof.C20_Siphon proof.C20_Petri proof.C20_Bfs proof.C20_Build proof.C20_Main proof.C20_Hist proof.C20_Analyzer proof.C20_Undirected proof.C20_Order proof.C20_Complete.
+From SK Require Import model.C20_Model proof.C20_Spec proof.C20_Siphon proof.C20_Petri proof.C20_Bfs proof.C20_Build proof.C20_Main proof.C20_Hist proof.C20_Analyzer proof.C20_Undirected proof.C20_Order proof.C20_Complete model.C20_Persist proof.C20_PersistProof.
 Local Open Scope nat_scope.
 
 (** The index predicate [_is_siphon_indices] is the Petri-net definition: for every network over the
@@ -253,3 +253,41 @@ Theorem C20_species_insertion_order :
   find_traps G' max_size = find_traps G max_size.
 Proof. exact main_species_insertion_order. Qed.
 Print Assumptions C20_species_insertion_order.
+
+(** siphon_persistence_condition (persistence.py; model coq/model/C20_Persist.v, round 5).  The floating-point P-semiflow basis is
+    not modelled: the SUPPORTS of its columns are oracle inputs.  For every list of supports: on the export of a network with species
+    and reactions the function answers, and it answers True exactly when every siphon reported by find_siphons — by
+    [C20_find_siphons] exactly the inclusion-minimal non-empty siphons with at most max_siphon_size members — contains a
+    non-empty support (no siphon: True; no column or only empty supports: False as soon as there is a siphon). *)
+Theorem C20_persistence_condition :
+  forall (n : nat) (rs : list rxn) (max_size : option nat) (supports : list (list nat)),
+  wf_net n rs -> n <> 0 -> rs <> [] ->
+  exists sip b, find_siphons (bipartite_of n rs) max_size = Some sip /\
+    siphon_persistence_condition (bipartite_of n rs) max_size supports = Some b /\
+    (b = true <-> forall S, In S sip -> exists T, In T supports /\ T <> [] /\ incl T S).
+Proof. exact persistence_condition_spec. Qed.
+Print Assumptions C20_persistence_condition.
+
+(** PetriAnalyzer's persistence field under ANY history of compute_siphons_traps / check_persistence / compute_all / read / edit calls
+    on one object ([anp_exec]; [base_ops] projects a history to the calls the base machine of [C20_analyzer_no_stale] sees, [checked_for]
+    is the network and the semiflow supports of the last successful check_persistence / compute_all): the siphon / trap fields are
+    those of the base machine, and the stored verdict is exactly the verdict for the network AS IT WAS at the last successful check —
+    never an earlier one, never one for a network edited since. *)
+Theorem C20_analyzer_persistence_no_stale :
+  forall (k : option nat) (net0 : network) (ops : list anp_op),
+  let st := anp_exec k (ANP (AN net0 None None) None) ops in
+  anp_base st = an_exec k (AN net0 None None) (base_ops ops) /\
+  anp_persist st = match checked_for net0 None ops with
+                   | None => None
+                   | Some (net, sup) => siphon_persistence_condition (bipartite_of (fst net) (snd net)) k sup
+                   end.
+Proof. exact anp_no_stale. Qed.
+Print Assumptions C20_analyzer_persistence_no_stale.
+
+(** a read at any position of [anp_run] (what the correspondence evaluates) returns the three stored fields *)
+Theorem C20_analyzer_persistence_read :
+  forall (k : option nat) (st : anp_state) (ops1 ops2 : list anp_op),
+  nth_error (anp_run k st (ops1 ++ PBase AnRead :: ops2)) (length ops1) =
+  Some (let s := anp_exec k st ops1 in PRead (an_siphons (anp_base s)) (an_traps (anp_base s)) (anp_persist s)).
+Proof. exact anp_read. Qed.
+Print Assumptions C20_analyzer_persistence_read.
